@@ -99,7 +99,7 @@ def native_replay(prop, repo, payload, out_path):
     """run a native harness on the real code; returns its verdict dict"""
     os.makedirs(os.path.dirname(out_path), exist_ok=True)
     env = dict(os.environ)
-    env["PYTHONPATH"] = repo + os.pathsep + VERIF
+    env["PYTHONPATH"] = os.pathsep.join([repo, VERIF, os.path.join(VERIF, "out", "nx")])     # out/nx: networkx for SplineMethod (contracts/c17.py:nx_path)
     env["PYTHONDONTWRITEBYTECODE"] = "1"
     py = os.environ.get("VERIF_NATIVE_PY", "/venv/bin/python")
     try:
